@@ -725,18 +725,7 @@ func (c *SpecCtx) call(x *SExpr) Value {
 		if !ok {
 			specFail("content needs a byte slice")
 		}
-		et := b.Typ.Underlying().(*types.Slice).Elem()
-		names, sorts, leaves := e.elemArrays(et)
-		if len(names) != 1 {
-			specFail("content needs a slice of scalars")
-		}
-		f := q("content!" + sanitize(leaves[0].Sort))
-		if !e.declared[f] {
-			e.declared[f] = true
-			e.sess.Cmd("(declare-fun " + f + " ((Array Int " + leaves[0].Sort + ") Int Int) Int)")
-		}
-		arr := e.heapGet(c.st, names[0], sorts[0])
-		return scInt(sx(f, mkSelect(arr, b.Arr), b.Off, b.Len))
+		return scInt(e.contentTerm(c.st, b))
 	case "tracelen":
 		return scInt(e.traceLenTerm(c.st, x.Args[0].String()))
 	case "traceat":
@@ -754,6 +743,25 @@ func (c *SpecCtx) call(x *SExpr) Value {
 			specFail("disjoint needs two slices")
 		}
 		return boolV(mkNot(mkEq(a.Arr, b.Arr)))
+	case "sha256", "abytes", "bstr":
+		e.declBytesFuncs()
+		v := c.eval(x.Args[0])
+		t := e.flatten(v)[0]
+		res := sx("|"+x.Name+"!|", t)
+		if x.Name == "bstr" {
+			return &Sc{T: res, Sort: sInt, Typ: types.Typ[types.String]}
+		}
+		return scInt(res)
+	case "bchain":
+		// bchain(b): the byte string built so far by the *strings.Builder b
+		p, ok := c.eval(x.Args[0]).(*Ptr)
+		if !ok {
+			specFail("bchain needs a *strings.Builder")
+		}
+		return scInt(e.load(c.st, builderChainPtr(p)).(*Slice).Arr)
+	case "bcat":
+		e.declBytesFuncs()
+		return scInt(sx("|bcat!|", c.intTerm(c.eval(x.Args[0])), c.intTerm(c.eval(x.Args[1])), c.intTerm(c.eval(x.Args[2]))))
 	case "asptr":
 		// asptr(x, T): the integer x (e.g. a trace component) as a *T
 		t := e.w.resolveType(c.pkg, x.Args[1].String())
